@@ -647,7 +647,8 @@ class Sched:
                 if op is None:
                     raise ItemError(hp, file, s, 'augmented operator %s is not supported' % type(s.op).__name__)
                 val = [op, ['var', hp], val]
-            self.items.append({'opt': self.opt, 'hp': hp, 'file': file, 'line': s.lineno, 'text': text, 'tree': val,
+            self.items.append({'opt': self.opt, 'hp': hp, 'file': file, 'line': s.lineno,
+                               'end_line': getattr(s, 'end_lineno', s.lineno), 'text': text, 'tree': val,
                                'phase': self.phase, 'method': '%s.%s' % (self.chain[self.stack[-1][0]].name, self.stack[-1][1])})
         except ItemError as ex:
             self.errors.append((ex.hp, ex.file, ex.line, ex.msg))
